@@ -35,7 +35,8 @@ def run(sc):
     run_mod.datetime = FrozenDT; run_mod.is_now = fake_is_now
     cron = decode(sc.get('cron')); off = decode(sc.get('cron_offset')); tm = decode(sc.get('time'))
     if cron is not None and str(cron) == '': cron = ''
-    task = ScheduledTask.model_construct(task_name='t', labels={}, args=[], kwargs={}, cron=cron, cron_offset=off, time=tm, schedule_id='x') if hasattr(ScheduledTask, 'model_construct') else ScheduledTask.construct(task_name='t', labels={}, args=[], kwargs={}, cron=cron, cron_offset=off, time=tm, schedule_id='x')
+    try: task = ScheduledTask(task_name='t', labels={}, args=[], kwargs={}, cron=cron, cron_offset=off, time=tm, schedule_id='x')          # through the model's validators, as every schedule source builds it
+    except Exception: task = ScheduledTask.model_construct(task_name='t', labels={}, args=[], kwargs={}, cron=cron, cron_offset=off, time=tm, schedule_id='x')          # (a counter-model outside the model's domain)
     out = {'inputs': {'now': now.isoformat(), 'cron': cron, 'cron_offset': str(off), 'time': None if tm is None else tm.isoformat()}}
     try:
         res = run_mod.get_task_delay(task); out['result'] = res; exc = None
